@@ -11,6 +11,7 @@ import (
 	"encoding/csv"
 	"encoding/json"
 	"fmt"
+	"io"
 	"math"
 	"os"
 	"strconv"
@@ -319,6 +320,11 @@ func ModelCSVWriter() {}
 
 // RealDigits disables the engine's number-text model for internal/ryu (C16).
 func RealDigits() {}
+
+// ModelJSONDecoder makes the engine use f in place of encoding/json's Decoder.Decode (which is
+// reflection driven and cannot be executed symbolically): f reads the document and returns the
+// decoded value of the destination's type. Natively the real decoder runs, f is ignored.
+func ModelJSONDecoder(f func(r io.Reader) (interface{}, error)) {}
 
 // CSVRecords returns the records written through the modelled csv.Writer; the
 // native implementation parses the bytes actually written with encoding/csv.
